@@ -173,7 +173,8 @@ def gen_case(rng, widen=False):
     n_learn = rng.weighted([(1, 3), (2, 4), (3, 2)])
     learns = []
     for i in range(n_learn):
-        learns.append({"total": rng.randint(1, 24 if not widen else 40), "reset": True if i == 0 and rng.chance(0.7) else rng.chance(0.5)})
+        learns.append({"total": rng.randint(1, 24 if not widen else 40), "reset": True if i == 0 and rng.chance(0.7) else rng.chance(0.5),
+                       "set_env": bool(i > 0 and rng.chance(0.3))})
     horizon = max(2, sum(l["total"] for l in learns) // n_envs)
     counter = [0]
     rootmode = "obj"
@@ -595,6 +596,8 @@ def run_impl(ctx, case):
             prev_num = int(model.num_timesteps)
             try:
                 # log_interval huge: the only dump_logs() calls are those of LogEveryNTimesteps
+                if l.get("set_env"):
+                    model.set_env(model.get_env())
                 model.learn(l["total"], callback=root, reset_num_timesteps=l["reset"], log_interval=10**9)
             except AssertionError as ex:
                 raised = f"AssertionError: {str(ex)[:120]}"
